@@ -559,6 +559,8 @@ struct OpRec {
     answers: Vec<Answer>,
     /// per frame: the most recent announcement for the executed statement object when the frame arrived
     latest_at_build: Vec<Vec<(String, String)>>,
+    /// per frame: the node that made that announcement
+    latest_src_at_build: Vec<usize>,
 }
 
 struct Caller {
@@ -571,6 +573,8 @@ struct ObjInfo {
     /// the columns most recently announced to this client for this object: by the creating PREPARED, by a
     /// METADATA_CHANGED response, or by a re-PREPARED that carried columns (on any connection), in delivery order
     latest: Vec<(String, String)>,
+    /// the node that made it
+    latest_src: usize,
     /// a byzantine PREPARED (NO_METADATA with a column count) was delivered for it: no decode claims
     byz: bool,
     /// set when a METADATA_CHANGED response was delivered for it: (new id, new columns non-empty)
@@ -878,8 +882,22 @@ impl World<'_> {
                                 let latest = op.latest_at_build.last().cloned().unwrap_or_default();
                                 if *used != latest {
                                     fails.push(format!("F-C14-1 connection without the extension, use_cached_result_metadata: rows sent without metadata (encoded under [{}]) were decoded with [{}], but the metadata most recently announced for this statement when the EXECUTE was built was [{}]", show_cols(&enc), show_cols(used), show_cols(&latest)));
-                                } else if *used == enc && decoded.as_ref() != Some(&expected) {
-                                    fails.push("decoded rows differ from the rows the node encoded".to_owned());
+                                } else if *used == enc {
+                                    if decoded.as_ref() != Some(&expected) {
+                                        fails.push("decoded rows differ from the rows the node encoded".to_owned());
+                                    }
+                                } else if std::env::var_os("C14_CLASSIFY").is_some() {
+                                    // The columns used ARE the most recently announced ones, yet the answering node
+                                    // encodes under different columns: accepted by the property as worded ("announced"
+                                    // is not per node / nobody told the client). Developer switch: report and classify.
+                                    let src = op.latest_src_at_build.last().copied().unwrap_or(usize::MAX);
+                                    let stmt_no = e.handle.get_statement().trim_start_matches('q').parse::<usize>().unwrap_or(0);
+                                    let src_now = self.srv.get(src).and_then(|n| n.st.get(stmt_no)).map(|s| cols_of_mk(&shape_cols(s.shape)));
+                                    if src == op.node || src_now.as_ref() != Some(used) {
+                                        fails.push(format!("C14-NOTE-A the cluster changed the columns to [{}] after [{}] was announced and nobody told this client (CQL v4 without the extension cannot)", show_cols(&enc), show_cols(used)));
+                                    } else {
+                                        fails.push(format!("C14-NOTE-B columns [{}] announced by node {} used on node {} (no extension) which encodes under [{}] while the announcing node still holds the announced columns: the nodes disagree on the schema", show_cols(used), src, op.node, show_cols(&enc)));
+                                    }
                                 }
                             }
                         }
@@ -928,14 +946,17 @@ impl World<'_> {
         let Some((obj, handle)) = target else { return (None, vec![]) };
         self.target_byz = self.objs[obj].byz || matches!(answer, Answer::Prepared { no_meta: true, col_count, .. } if *col_count > 0);
         let before = cur_cols(&handle);
+        let answering = op.node;
         match answer {
             Answer::Rows { no_meta: false, new_id: Some(mid), cols, .. } if ext => {
                 self.objs[obj].latest = cols_of_mk(cols);
+                self.objs[obj].latest_src = answering;
                 self.objs[obj].expect_mid = Some((mid.clone(), !cols.is_empty()));
             }
             Answer::Prepared { id, no_meta, col_count, cols, .. } if id[..] == handle.get_id()[..] => {
                 if !*no_meta {
                     self.objs[obj].latest = cols_of_mk(cols);
+                    self.objs[obj].latest_src = answering;
                 } else if *col_count > 0 {
                     self.objs[obj].byz = true;
                 }
@@ -1005,13 +1026,14 @@ impl World<'_> {
                     self.after_delivery(k, a, h, &before, Some(&parsed));
                 }
                 out.push(format!("{}{}", show_req(node, &parsed), suffix(&handle)));
-                let latest = match self.callers[k].op.as_ref().map(|o| &o.kind) {
-                    Some(OpKind::Exec(e)) => self.objs[e.obj].latest.clone(),
-                    _ => vec![],
+                let (latest, latest_src) = match self.callers[k].op.as_ref().map(|o| &o.kind) {
+                    Some(OpKind::Exec(e)) => (self.objs[e.obj].latest.clone(), self.objs[e.obj].latest_src),
+                    _ => (vec![], usize::MAX),
                 };
                 if let Some(op) = self.callers[k].op.as_mut() {
                     op.frames.push(parsed.clone());
                     op.latest_at_build.push(latest);
+                    op.latest_src_at_build.push(latest_src);
                 }
                 self.callers[k].state = CState::Req { node, conn, stream, parsed };
             }
@@ -1024,7 +1046,8 @@ impl World<'_> {
                 if let (Out::Prepared(ps), Some(OpRec { kind: OpKind::Fresh { slot }, .. })) = (o, self.callers[k].op.as_ref()) {
                     let obj = self.objs.len();
                     let byz = matches!(self.callers[k].op.as_ref().and_then(|o| o.answers.last()), Some(Answer::Prepared { no_meta: true, col_count, .. }) if *col_count > 0);
-                    self.objs.push(ObjInfo { latest: cur_cols(&ps), byz, expect_mid: None });
+                    let src = self.callers[k].op.as_ref().map(|o| o.node).unwrap_or(usize::MAX);
+                    self.objs.push(ObjInfo { latest: cur_cols(&ps), latest_src: src, byz, expect_mid: None });
                     self.slots[*slot] = Some((obj, *ps));
                 }
                 self.callers[k].op = None;
@@ -1185,7 +1208,7 @@ async fn run_case(case: &str, ctx: &mut Ctx, net: &mut Net, clean: &mut bool) ->
                         };
                         let _ = tx.send(Ev::Done { caller: k, out: o });
                     });
-                    world.callers[k].op = Some(OpRec { kind: OpKind::Fresh { slot: s }, node: n, frames: vec![], answers: vec![], latest_at_build: vec![] });
+                    world.callers[k].op = Some(OpRec { kind: OpKind::Fresh { slot: s }, node: n, frames: vec![], answers: vec![], latest_at_build: vec![], latest_src_at_build: vec![] });
                     world.settle(k, &mut out, None).await;
                 }
                 ('A', ["x", s, n, u, cl, scl, ts, pg, ps, nv]) => {
@@ -1236,7 +1259,7 @@ async fn run_case(case: &str, ctx: &mut Ctx, net: &mut Net, clean: &mut bool) ->
                         let o = to_out(conn.execute(&h2, &values, pg, paging).await);
                         let _ = tx.send(Ev::Done { caller: k, out: o });
                     });
-                    world.callers[k].op = Some(OpRec { kind: OpKind::Exec(Box::new(ExecInfo { obj, handle, values: vals, cl, scl, ts, pg, ps })), node: n, frames: vec![], answers: vec![], latest_at_build: vec![] });
+                    world.callers[k].op = Some(OpRec { kind: OpKind::Exec(Box::new(ExecInfo { obj, handle, values: vals, cl, scl, ts, pg, ps })), node: n, frames: vec![], answers: vec![], latest_at_build: vec![], latest_src_at_build: vec![] });
                     world.settle(k, &mut out, None).await;
                 }
                 ('A', ["b", n, cl, scl, ts, items]) => {
@@ -1285,7 +1308,7 @@ async fn run_case(case: &str, ctx: &mut Ctx, net: &mut Net, clean: &mut bool) ->
                         };
                         let _ = tx.send(Ev::Done { caller: k, out: o });
                     });
-                    world.callers[k].op = Some(OpRec { kind: OpKind::Batch { items: resolved, cl, scl, ts }, node: n, frames: vec![], answers: vec![], latest_at_build: vec![] });
+                    world.callers[k].op = Some(OpRec { kind: OpKind::Batch { items: resolved, cl, scl, ts }, node: n, frames: vec![], answers: vec![], latest_at_build: vec![], latest_src_at_build: vec![] });
                     world.settle(k, &mut out, None).await;
                 }
                 ('S', []) => world.serve(k, &mut out),
